@@ -50,6 +50,7 @@ def one(rec, hub, tier, seed, letters, pat, pi, what, ai, assign):
         drv.do_whole_array(hub, U, sub, rng)
         drv.do_float32_targets(hub, U, sub, rng)
         drv.do_iterator_keys(hub, U, sub, rng)
+        drv.do_key_object_reuse(hub, U, sub, rng)
     elif what == "big":
         from ..oracles import big
 
